@@ -104,6 +104,12 @@ def evaluate(sub, spec, known, stats):
     """Run one case; map exceptions to violation / harness error."""
     from vlib.case import Out, match_known, passes_through_repo, short_tb
 
+    from vlib.case import jsonable
+
+    trace = os.environ.get("VERIF_TRACE_SPEC")
+    if trace:  # debugging aid: the spec being evaluated survives a hard crash of the worker (abort / segfault in compiled code)
+        with open(trace, "w") as tf:
+            json.dump(jsonable(spec), tf)
     for e in known:
         m = e.get("match", {})
         if m.get("sub", sub.name) != sub.name:
